@@ -123,6 +123,9 @@ def extra_cases():
                 "get2 106", "vals", "ins2 0 0", "get 0", "get2 0", "rem2 0", "get2 0"])
     out.append(["ins %d 1" % k for k in (5, 106, 207, 308)] + ["get 5"] + ["ins2 %d 2" % k for k in (5, 106, 207, 308)] + ["get2 5", "get 5", "rem 5", "get 5", "get2 5", "ins 5 3", "get 5", "get2 5", "rem2 5", "get2 5", "get 5"])
     out.append(["api", "ins 1 1", "lapp 1", "api", "get 1", "keys", "llen", "leach", "lfree", "api", "llen"])
+    # a list / a chain longer than anything the random op files build (counts, walks and reversal of 150 nodes; 60 keys in one bucket)
+    out.append(["lapp %d" % (i % 7) for i in range(150)] + ["llen", "llast", "leach", "lrev", "llen", "leach", "lrem 3", "llen", "lpre 9", "llast", "llen", "lfree", "llen"])
+    out.append(["ins %d %d" % (5 + 101 * i, i) for i in range(60)] + ["keys", "vals", "get %d" % (5 + 101 * 59), "get 5", "rem %d" % (5 + 101 * 30), "rem 5", "rem %d" % (5 + 101 * 59), "keys", "lbv 30", "lbv 31"])
     # every bucket once, then twice (keys 0..201), low word wrapping through the addend
     out.append(["ins %d %d" % (k, k) for k in range(0, 202)] + ["keys", "vals"] + ["rem %d" % k for k in range(0, 202, 2)] + ["keys", "get 63", "get 64", "get 164", "get 165"])
     out.append(["ins %d 1" % k for k in range(2**32 - 40, 2**32 + 1)] + ["keys"] + ["get %d" % k for k in range(2**32 - 40, 2**32 + 1)])
